@@ -83,10 +83,12 @@ theorem run_induct {name : Asset → String} {C : World → Op → Prop} {I : Wo
 
 /-! ### C16: lookups -/
 
-/-- two lookups that return the same pair address are over the same unordered asset set -/
+/-- two lookups that return the same pair address are over the same unordered pair of raw identifiers; when the four
+queried assets are live, over the same unordered asset set -/
 theorem lookup_distinct_addr {w : World} (hr : RegOK w) (hraw : RawOK w) {a b c d : Asset} {R1 R2 : Record}
     (h1 : facLookup w a b = some R1) (h2 : facLookup w c d = some R2) (hp : R1.pair = R2.pair) :
-    (a = c ∧ b = d) ∨ (a = d ∧ b = c) := by
+    ((w.rawId a = w.rawId c ∧ w.rawId b = w.rawId d) ∨ (w.rawId a = w.rawId d ∧ w.rawId b = w.rawId c)) ∧
+    (Live w a → Live w b → Live w c → Live w d → (a = c ∧ b = d) ∨ (a = d ∧ b = c)) := by
   have m1 := mem_of_regLookup h1
   have m2 := mem_of_regLookup h2
   have e := distinct_pair_eq hr m1 m2 hp
@@ -425,9 +427,78 @@ theorem envEq_run {name : Asset → String} (ops : List Op) (w : World) : EnvEq 
     (fun _ _ _ _ hi _ hE => hi.trans (envEq_exec hE)) ops w (EnvEq.refl w)
     (stepsOK_true ops w)
 
-/-- `RawOK` speaks about the environment only, so it holds in every later state -/
-theorem rawOK_run {name : Asset → String} (ops : List Op) (w : World) (hraw : RawOK w) : RawOK (run name w ops) :=
-  rawOK_of_eq (envEq_run ops w).rawId hraw
+/-! ### C16: `RawOK` along histories -/
+
+/-- environment: the asset an operation makes live (`NewLive`: the LP token the chain instantiates for a created
+pair, the denom of an `AddNativeTokenDecimals`) carries a raw identifier that no OTHER live asset carries.  (For an
+asset that is live already — a denom that is re-registered — this follows from `RawOK`.) -/
+def RawFreshOK (w : World) (op : Op) : Prop :=
+  ∀ a b, Live w a → NewLive op b → a ≠ b → w.rawId a ≠ w.rawId b
+
+/-- `RawFreshOK` at every step of a history -/
+def RawRun (name : Asset → String) : World → List Op → Prop := StepsOK name RawFreshOK
+
+/-- only `CreatePair` and `AddNativeTokenDecimals` need the assumption -/
+theorem rawFreshOK_of_no_new {w : World} {op : Op} (h : ∀ b, ¬ NewLive op b) : RawFreshOK w op :=
+  fun _ b _ hb => absurd hb (h b)
+
+/-- the assumption unfolded for the two operations that need it -/
+theorem rawFreshOK_createPair {w : World} {s : Nat} {f : List (Nat × Nat)} {a0 a1 : Asset} {req : Requirements}
+    {c ld : Option Nat} {np nl : Nat} :
+    RawFreshOK w (.factory s f (.createPair a0 a1 req c ld np nl)) ↔
+      ∀ a, Live w a → a ≠ .token nl → w.rawId a ≠ w.rawId (.token nl) := by
+  constructor
+  · intro h a la hne
+    exact h a _ la (.inl ⟨s, f, a0, a1, req, c, ld, np, nl, rfl, rfl⟩) hne
+  · intro h a b la hb hne
+    rcases hb with ⟨_, _, _, _, _, _, _, _, nl', e, rfl⟩ | ⟨_, _, _, _, e, _⟩
+    · cases e; exact h a la hne
+    · cases e
+
+theorem rawFreshOK_addDecimals {w : World} {s : Nat} {f : List (Nat × Nat)} {d k : Nat} :
+    RawFreshOK w (.factory s f (.addDecimals d k)) ↔
+      ∀ a, Live w a → a ≠ .native d → w.rawId a ≠ w.rawId (.native d) := by
+  constructor
+  · intro h a la hne
+    exact h a _ la (.inr ⟨s, f, d, k, rfl, rfl⟩) hne
+  · intro h a b la hb hne
+    rcases hb with ⟨_, _, _, _, _, _, _, _, _, e, _⟩ | ⟨_, _, d', _, e, rfl⟩
+    · cases e
+    · cases e; exact h a la hne
+
+/-- one operation: no operation changes `rawId`, liveness is never revoked, and the one asset the operation may make
+live has a fresh raw identifier -/
+theorem rawOK_step {name : Asset → String} {w w' : World} {op : Op} {out : Out} (hraw : RawOK w)
+    (hf : RawFreshOK w op) (h : exec name w op = .ok (w', out)) : RawOK w' := by
+  have hid := (envEq_exec h).rawId
+  refine ⟨?_, by rw [hid]; exact hraw.short⟩
+  intro a b la lb e
+  rw [hid] at e
+  rcases (live_exec_iff h a).2 la with la | na <;> rcases (live_exec_iff h b).2 lb with lb | nb
+  · exact hraw.inj a b la lb e
+  · by_contra hne
+    exact hf a b la nb hne e
+  · by_contra hne
+    exact hf b a lb na (Ne.symm hne) e.symm
+  · exact newLive_unique na nb
+
+/-- an operation that makes no further asset live (in particular: everything but the factory's `CreatePair` and
+first-time `AddNativeTokenDecimals`) preserves `RawOK` unconditionally -/
+theorem rawOK_step_of_no_new {name : Asset → String} {w w' : World} {op : Op} {out : Out} (hraw : RawOK w)
+    (hn : ∀ b, NewLive op b → Live w b) (h : exec name w op = .ok (w', out)) : RawOK w' :=
+  rawOK_step hraw (fun a b la nb hne e => hne (hraw.inj a b la (hn b nb) e)) h
+
+/-- `RawOK` holds after every history in which newly live assets get fresh raw identifiers.  (With the former,
+stronger `RawOK` — injectivity of `rawId` on all identifiers — no side condition was needed, since no operation
+changes `rawId`; the present one speaks about the live assets, and their set grows.) -/
+theorem rawOK_run {name : Asset → String} (ops : List Op) (w : World) (hraw : RawOK w) (hrun : RawRun name w ops) :
+    RawOK (run name w ops) :=
+  run_induct (C := RawFreshOK) (I := RawOK) (fun _ _ _ _ hi hc hE => rawOK_step hi hc hE) ops w hraw hrun
+
+/-- liveness is never revoked along a history -/
+theorem live_run {name : Asset → String} (ops : List Op) (w : World) {a : Asset} (hl : Live w a) :
+    Live (run name w ops) a :=
+  Halo.RegOKP.live_run ops w hl
 
 /-! ### C16: the registry only grows -/
 
@@ -523,7 +594,8 @@ theorem regGrows_exec {name : Asset → String} {w w' : World} {op : Op} {out : 
       rw [facUpdateConfig_inv h2]
       exact regGrows_of_eq rfl
     | createPair a0 a1 req comm lpDec np nl => exact regGrows_createPair h1
-    | addDecimals d k => exact regGrows_addDecimals (regOK_same hs0 hr) h1
+    | addDecimals d k =>
+      exact regGrows_addDecimals (regOK_same hs0 (sameToks_of_tok_eq (attach_same h0).2) hr) h1
     | migratePair p c =>
       have h2 : facMigratePair w0 s p c = .ok w1 := h1
       rw [facMigratePair_inv h2]
@@ -537,27 +609,30 @@ theorem registry_only_grows {name : Asset → String} {w w' : World} {op : Op} {
 
 /-! ### C16: the registry invariant along histories -/
 
-/-- `RegOK` (with `RawOK`) is preserved along every history whose steps satisfy the side conditions of
-`regOK_step`, and along it the registry only grows -/
+/-- `RegOK` is preserved along every history whose steps satisfy the side conditions of `regOK_step`, and along
+it the registry only grows (no assumption on raw identifiers is needed) -/
+theorem regOK_run'' {name : Asset → String} (ops : List Op) (w : World) (hr : RegOK w)
+    (hrun : RegRun name w ops) : RegOK (run name w ops) ∧ RegGrows w (run name w ops) :=
+  run_induct (C := RegStepOK) (I := fun v => RegOK v ∧ RegGrows w v)
+    (fun _ _ _ _ hi hc hE => ⟨regOK_step' hi.1 hc.1 hc.2 hE, hi.2.trans (regGrows_exec hi.1 hE)⟩)
+    ops w ⟨hr, RegGrows.refl w⟩ hrun
+
+/-- … together with `RawOK`, when moreover newly live assets get fresh raw identifiers (`RawRun`) -/
 theorem regOK_run' {name : Asset → String} (ops : List Op) (w : World) (hr : RegOK w) (hraw : RawOK w)
     (hrun : RegRun name w ops) :
-    RegOK (run name w ops) ∧ RawOK (run name w ops) ∧ RegGrows w (run name w ops) :=
-  run_induct (C := RegStepOK) (I := fun v => RegOK v ∧ RawOK v ∧ RegGrows w v)
-    (fun _ _ _ _ hi hc hE =>
-      ⟨regOK_step hi.1 hi.2.1 hc.1 hc.2 hE, rawOK_of_eq (envEq_exec hE).rawId hi.2.1,
-        hi.2.2.trans (regGrows_exec hi.1 hE)⟩)
-    ops w ⟨hr, hraw, RegGrows.refl w⟩ hrun
+    RegOK (run name w ops) ∧ (RawRun name w ops → RawOK (run name w ops)) ∧ RegGrows w (run name w ops) :=
+  ⟨(regOK_run'' ops w hr hrun).1, rawOK_run ops w hraw, (regOK_run'' ops w hr hrun).2⟩
 
 theorem regOK_run {name : Asset → String} (ops : List Op) (w : World) (hr : RegOK w) (hraw : RawOK w)
-    (hrun : RegRun name w ops) : RegOK (run name w ops) ∧ RawOK (run name w ops) :=
-  ⟨(regOK_run' ops w hr hraw hrun).1, (regOK_run' ops w hr hraw hrun).2.1⟩
+    (hrun : RegRun name w ops) : RegOK (run name w ops) ∧ (RawRun name w ops → RawOK (run name w ops)) :=
+  ⟨(regOK_run'' ops w hr hrun).1, rawOK_run ops w hraw⟩
 
 /-- whatever is registered stays registered, for the same pair, after any later history -/
-theorem registered_forever {name : Asset → String} (ops : List Op) (w : World) (hr : RegOK w) (hraw : RawOK w)
+theorem registered_forever {name : Asset → String} (ops : List Op) (w : World) (hr : RegOK w) (_hraw : RawOK w)
     (hrun : RegRun name w ops) :
     ∀ k R, regLookup k w.registry = some R → ∃ R', regLookup k (run name w ops).registry = some R' ∧
       R'.pair = R.pair ∧ R'.lp = R.lp ∧ R'.a0 = R.a0 ∧ R'.a1 = R.a1 ∧ R'.req = R.req ∧ R'.comm = R.comm :=
-  (regOK_run' ops w hr hraw hrun).2.2
+  (regOK_run'' ops w hr hrun).2
 
 /-- in terms of the factory's pair query: a successful lookup keeps succeeding, in both orders -/
 theorem lookup_forever {name : Asset → String} (ops : List Op) (w : World) (hr : RegOK w) (hraw : RawOK w)
@@ -579,11 +654,11 @@ theorem created_registered_forever {name : Asset → String} {w w' : World} {s :
       R.pair = np ∧ R.lp = nl ∧ R.a0 = a0 ∧ R.a1 = a1 := by
   obtain ⟨R, h1, _, e1, e2, e3, e4⟩ := created_registered hr h
   have hr' := regOK_createPair hr hraw hfresh h
-  have hraw' : RawOK w' := by
-    obtain ⟨_, _, _, d0, d1, _, _, _, rfl⟩ := facCreatePair_inv h
-    exact ⟨hraw.inj, hraw.short⟩
-  obtain ⟨R', g1, g2, f1, f2, f3, f4, _, _⟩ := lookup_forever ops w' hr' hraw' hrun h1
-  exact ⟨R', g1, g2, f1.trans e1, f2.trans e2, f3.trans e3, f4.trans e4⟩
+  obtain ⟨R', hR', f1, f2, f3, f4, _, _⟩ := (regOK_run'' ops w' hr' hrun).2 _ R h1
+  have hid := (envEq_run (name := name) ops w').rawId
+  refine ⟨R', ?_, ?_, f1.trans e1, f2.trans e2, f3.trans e3, f4.trans e4⟩
+  · unfold facLookup; rw [hid]; exact hR'
+  · unfold facLookup; rw [hid, Halo.C19.pairKey_comm]; exact hR'
 
 /-! ### C07: who can change the supply of an LP token -/
 
